@@ -13,6 +13,13 @@ def _init():
     os.environ.setdefault("JAX_PLATFORMS", "cpu")
     os.environ.setdefault("XLA_FLAGS", "--xla_cpu_multi_thread_eigen=false intra_op_parallelism_threads=1")
     os.environ.setdefault("OMP_NUM_THREADS", "1")
+    if os.environ.get("VERIF_COV"):
+        # optional: measure which lines of /repo/summer2 the correspondence executes (harness/coverage_report.py)
+        import coverage
+        cov = coverage.Coverage(data_file=os.path.join(os.environ["VERIF_COV"], f".coverage.{os.getpid()}"),
+                                source_pkgs=["summer2"], config_file=False)
+        cov.start()
+        _W["cov"] = cov
     devnull = open(os.devnull, "w")
     old = sys.stderr
     sys.stderr = devnull
@@ -33,6 +40,8 @@ def _run(args):
         t = time.time()
         out = fn(_W, payload)
         out["_wall"] = time.time() - t
+        if "cov" in _W:
+            _W["cov"].save()
         return out
     except (KeyboardInterrupt, SystemExit):
         raise
